@@ -456,7 +456,11 @@ def or_split_variant(rng: random.Random) -> dict:
     stages = [st("a", [], [dict(OK, raw=raw, out=["a_o"])], split="OR", conds=conds)]
     for b in branches:
         kind = rng.choice(["ok", "ok", "fc"])
-        stages.append(st(b, ["a"], [{"kind": kind, "out": [b + "_o"]}]))
+        # branches of different length so that they finish at different moments
+        pre = [dict(OK) for _ in range(rng.choice([0, 0, 1, 2]))]
+        if rng.random() < 0.3:
+            pre.append({"kind": "poll", "n": rng.randint(1, 2)})
+        stages.append(st(b, ["a"], pre + [{"kind": kind, "out": [b + "_o"]}]))
     stages.append(st("j", branches, [dict(OK, out=["j_o"])], join="OR", or_active=sorted(active)))
     stages.append(st("z", ["j"]))
     return {"name": "orsplit_" + "".join(sorted(active)), "confluent": True, "stages": stages}
@@ -519,3 +523,35 @@ def first_of_failing(rng: random.Random) -> dict:
         j["thr"] = rng.randint(1, width)
     stages += [j, st("z", ["j"])]
     return {"name": f"{jt.lower()}_fail{width}", "confluent": False, "stages": stages}
+
+
+def jump_fanin_off_body(times: int = 1) -> dict:
+    """r -> a -> b -> c[jump to a]; side s; k needs (b, s) and is NOT in the re-arm set of a
+    (it also depends on s), so it must run exactly once although b re-runs."""
+    return {
+        "name": f"jumpfanin{times}",
+        "confluent": True,
+        "stages": [
+            st("r"),
+            st("a", ["r"], [dict(OK, out=["a_o"])]),
+            st("b", ["a"], [dict(OK, out=["b_o"])]),
+            st("s", ["r"], [dict(OK, out=["s_o"])]),
+            st("k", ["b", "s"], [dict(OK, out=["k_o"])]),
+            st("c", ["b"], [{"kind": "jump", "to": "a", "times": times, "out": ["c_o"]}]),
+        ],
+    }
+
+
+def restart_forward_jump() -> dict:
+    """a -> b -> c -> d all succeed; only when `a` is run again (operator restart) does it
+    jump forward to c, over the already completed b."""
+    return {
+        "name": "restart_forward_jump",
+        "confluent": True,
+        "stages": [
+            st("a", [], [{"kind": "jump", "to": "c", "times": 1, "from_iter": 1, "out": ["a_o"]}]),
+            st("b", ["a"]),
+            st("c", ["b"]),
+            st("d", ["c"]),
+        ],
+    }
